@@ -1,10 +1,10 @@
-import N0Verif.Proofs.NXml
+import N0Verif.Proofs.NXmlStr
 /-!
 # C18 — n0xml keeps document order and its searches return only real nodes
 
 Only property statements live here; definitions of the specification side (`flatKids`,
 `elemAt`, `valueOf`, …) and helper lemmas are in `Proofs/NXml.lean`.  The model
-(`Model/NXml.lean`) follows `n0struct_xml.py` with fixes C18-a, C18-b, C18-c applied; its input
+(`Model/NXml.lean`) follows `n0struct_xml.py` with fixes C18-a, C18-b, C18-c, C18-d applied; its input
 is the element tree ElementTree reports (the XML parser is trusted).
 -/
 namespace N0.C18
@@ -129,47 +129,40 @@ def nonEmpty : Option (List Hit) → Bool
   | some (_ :: _) => true
   | _ => false
 
-/-- **C18 (findfirst), full statement — not proved; differential only.**  `findfirst` is the
-first `findall` result (nothing when `findall` returns an empty list or `None`), for every
-expression in which no `**[filter]` step is directly followed by `..`.  Without that restriction
-the statement is false on the pinned code: `C18_findfirst_cex` (finding C18-d). -/
-def C18_findfirst_stmt : Prop :=
-  ∀ (root : XVal) (sought : List Str) (r : Option (List Hit)), filteredDeepUp sought = false →
-    findallL false root sought = .ok r → findfirstL root sought = .ok (firstOf r)
+/-- **C18 (findfirst).**  For **every** expression — any list of steps: names, `*`, `**`, indexes,
+`text()` conditions, `..`, any length — `findfirst` is the first `findall` result, and the empty
+tuple (`none`) when `findall` returns an empty list or `None`.  (Code with fix C18-d; on the
+unfixed code the statement is false for a filtered `**` step directly followed by `..`.) -/
+theorem C18_findfirst (root : XVal) (sought : List Str) (r : Option (List Hit))
+    (h : findallL false root sought = .ok r) : findfirstL root sought = .ok (firstOf r) :=
+  (findfirst_all root sought r h).1
 
-/-- **C18 (in), full statement — not proved; differential only.**  `xp in doc` is true exactly
-when `findall(xp)` is a non-empty list (fix C18-a applied). -/
-def C18_in_iff_stmt : Prop :=
-  ∀ (root : XVal) (sought : List Str) (r : Option (List Hit)),
-    findallL false root sought = .ok r → containsL root sought = .ok (nonEmpty r)
-
-/-- **C18 (findfirst), proved part.**  For every expression without a `..` step (names, `*`,
-`**`, indexes, `text()` conditions; any length) `findfirst` is the first `findall` result — the
-empty tuple (`none`) when `findall` finds nothing — and `findall` never returns `None`. -/
-theorem C18_findfirst_partial (root : XVal) (sought : List Str) (hs : NoUp sought)
-    (r : Option (List Hit)) (h : findallL false root sought = .ok r) :
-    findfirstL root sought = .ok (firstOf r) ∧ r ≠ none := by
-  obtain ⟨h1, _, l, _, hl, _, _⟩ := findfirst_noUp root sought hs r h
-  exact ⟨h1, by simp [hl]⟩
-
-/-- **C18 (in), proved part.**  For every expression without a `..` step, `xp in doc` is true
-exactly when `findall(xp)` is a non-empty list (fix C18-a applied). -/
-theorem C18_in_iff_partial (root : XVal) (sought : List Str) (hs : NoUp sought)
-    (r : Option (List Hit)) (h : findallL false root sought = .ok r) :
-    containsL root sought = .ok (nonEmpty r) := by
-  obtain ⟨_, h2, _⟩ := findfirst_noUp root sought hs r h
-  rw [h2]
+/-- **C18 (in).**  For every expression, `xp in doc` is true exactly when `findall(xp)` is a
+non-empty list (fix C18-a applied). -/
+theorem C18_in_iff (root : XVal) (sought : List Str) (r : Option (List Hit))
+    (h : findallL false root sought = .ok r) : containsL root sought = .ok (nonEmpty r) := by
+  rw [(findfirst_all root sought r h).2.1]
   cases r with
   | none => rfl
   | some l => cases l <;> rfl
 
-/-- with `find_first=True` `findall` returns a prefix of what it returns otherwise (no `..`) -/
-theorem C18_find_first_prefix (root : XVal) (sought : List Str) (hs : NoUp sought)
-    (l : List Hit) (h : findallL false root sought = .ok (some l)) :
-    ∃ l', findallL true root sought = .ok (some l') ∧ l' <+: l := by
-  obtain ⟨_, _, l0, l', hl, hT, hp⟩ := findfirst_noUp root sought hs _ h
-  cases hl
-  exact ⟨l', hT, hp⟩
+/-- with `find_first=True` `findall` returns a prefix of what it returns otherwise — `None`
+exactly when the full search returns `None` — for every expression -/
+theorem C18_find_first_prefix (root : XVal) (sought : List Str) (r : Option (List Hit))
+    (h : findallL false root sought = .ok r) :
+    ∃ r', findallL true root sought = .ok r' ∧
+      ((∃ l l', r = some l ∧ r' = some l' ∧ l' <+: l) ∨ (r = none ∧ r' = none)) :=
+  (findfirst_all root sought r h).2.2.1
+
+/-- `findall` returns `None` only when a `..` leaves the node the search started from: the static
+classification `kindL` of the step list says which expressions can (`false`), and then the result
+is `None` or `[]`; an expression without `..` is never of that kind -/
+theorem C18_findall_none (root : XVal) (sought : List Str) (r : Option (List Hit))
+    (h : findallL false root sought = .ok r) :
+    (kindL sought = true → r ≠ none) ∧ (kindL sought = false → r = none ∨ r = some []) ∧
+    (NoUp sought → r ≠ none) :=
+  ⟨(findfirst_all root sought r h).2.2.2.1, (findfirst_all root sought r h).2.2.2.2,
+    fun hs => (findfirst_all root sought r h).2.2.2.1 (kindL_noUp sought hs)⟩
 
 example : NoUp [s "**", s "a[text()!=z]"] := by
   intro x hx
@@ -186,22 +179,185 @@ def cexDoc : Elem :=
     .mk (s "a") none [] [.mk (s "b") none [] [], .mk (s "b") none [] []],
     .mk (s "a") none [] []]
 
-/-- **finding C18-d.**  With `**[1]/..` on `<r><a><b/><b/></a><a/></r>` `findall` reports the
-root (path `[]`) as its only and first result, but `findfirst` reports the first `<a>`:
-`findfirst` is not the first `findall` result. -/
-theorem C18_findfirst_cex :
-    findallL false (parseNode cexDoc) [s "**[1]", s ".."] = .ok (some [([], parseNode cexDoc)]) ∧
+/-- the witness of the former finding C18-d (`**[1]/..` on `<r><a><b/><b/></a><a/></r>`): with the
+fix `findall` lists both parents of a second-of-its-tag element, the first `<a>` and the root, and
+`findfirst` is the first of them (before the fix `findall` returned the root only) -/
+example :
+    findallL false (parseNode cexDoc) [s "**[1]", s ".."]
+      = .ok (some [([s "a[0]"], .nodes [(s "b", [], .text none), (s "b", [], .text none)]),
+                   ([], parseNode cexDoc)]) ∧
     findfirstL (parseNode cexDoc) [s "**[1]", s ".."]
       = .ok (some ([s "a[0]"], .nodes [(s "b", [], .text none), (s "b", [], .text none)])) ∧
     filteredDeepUp [s "**[1]", s ".."] = true := by decide +kernel
 
-/-- `in` and `findall` still agree on that witness -/
 example : containsL (parseNode cexDoc) [s "**[1]", s ".."] = .ok true := by decide +kernel
 example : containsL (parseNode exDoc) [s "b", s "zz"] = .ok false ∧
     findallL false (parseNode exDoc) [s "b", s "zz"] = .ok (some []) := by decide +kernel
+/-- an expression of the second kind: `None`, and `in` is false -/
 example : containsL (parseNode exDoc) [s "..", s "a"] = .ok false ∧
-    findallL false (parseNode exDoc) [s "..", s "a"] = .ok none := by decide +kernel
-example : findfirstL (parseNode exDoc) [s "**", s "a"] = .ok (some ([s "b", s "a"], .text (some (s "1")))) ∧
-    filteredDeepUp [s "**", s "a"] = false := by decide +kernel
+    findallL false (parseNode exDoc) [s "..", s "a"] = .ok none ∧ kindL [s "..", s "a"] = false := by
+  refine ⟨by decide +kernel, by decide +kernel, ?_⟩
+  have e : s ".." = dotdot := by decide +kernel
+  rw [e, kindL_up]
+/-- a `..` that stays inside: first kind -/
+example : findallL false (parseNode exDoc) [s "b", s "a", s "..", s "c"] =
+      .ok (some [([s "b", s "c"], .text none)]) ∧
+    kindL [s "b", s "a", s "..", s "c"] = true := by
+  refine ⟨by decide +kernel, ?_⟩
+  have e : s ".." = dotdot := by decide +kernel
+  have hc : s "c" ≠ dotdot := by decide +kernel
+  have ha : s "a" ≠ dotdot := by decide +kernel
+  have hb : s "b" ≠ dotdot := by decide +kernel
+  have h1 : kindL [s "c"] = true := kindL_of_rest _ _ hc kindL_nil
+  have h2 : kindL [s "..", s "c"] = false := by rw [e]; exact kindL_up _
+  have h3 : kindL [s "a", s "..", s "c"] = true := by
+    rw [kindL_skip _ _ ha h2]; simpa using h1
+  exact kindL_of_rest _ _ hb h3
+example : findfirstL (parseNode exDoc) [s "**", s "a"] = .ok (some ([s "b", s "a"], .text (some (s "1")))) := by
+  decide +kernel
+
+/-! ### the string forms
+
+The theorems above speak about step lists (an official calling convention of `get`/`findall`).
+Here they are lifted to the strings the test-suite uses: result paths joined with `/`, positional
+paths `t1[k1]/…/tn[kn]`, and expressions of the property's grammar (`renderExpr`). -/
+
+/-- **C18 (get, string form).**  `get('t1[k1]/…/tn[kn]')` — the string — returns the stored value
+of the ElementTree element at that position, the default when there is none (tags addressable and
+not empty: `goodTagS`). -/
+theorem C18_get_positional_str (e : Elem) (st : Str × Nat) (p : List (Str × Nat))
+    (hp : ∀ q ∈ st :: p, goodTagS q.1 = true) :
+    getS (parseNode e) (renderIdxPath (st :: p)) = .ok ((elemAt e (st :: p)).map valueOf) := by
+  rw [getS_renderIdxPath _ _ hp]
+  exact C18_get_positional e st p (fun q hq => goodTagS_goodTag _ (hp q hq))
+
+example : renderIdxPath [(s "b", 0), (s "a", 0)] = s "b[0]/a[0]" := by decide +kernel
+example : getS (parseNode exDoc) (s "b[0]/a[0]") = .ok (some (.text (some (s "1")))) := by decide +kernel
+example : getS (parseNode exDoc) (s "a[2]") = .ok none := by decide +kernel
+
+/-- **C18 (findall resolves, string form).**  Every `(path, value)` pair `findall(xp)` returns —
+any expression string, both `find_first` modes — satisfies `get('/'.join(path)) == value`
+(document tags addressable and not empty: `goodVS`). -/
+theorem C18_findall_resolves_get_str (findFirst : Bool) (root : XVal) (hg : goodVS root = true)
+    (xp : Str) (hs : List Hit) (h : findall findFirst root xp = .ok (some hs)) :
+    ∀ p ∈ hs, getS root (join ['/'] p.1) = .ok (some p.2) := fun p hp =>
+  getS_of_getL root p.1 p.2 hg
+    (findallL_resolves findFirst root (goodVS_goodV root hg) (xpSteps xp) hs h p hp)
+
+/-- the same for the list form of the expression -/
+theorem C18_findallL_resolves_get_str (findFirst : Bool) (root : XVal) (hg : goodVS root = true)
+    (sought : List Str) (hs : List Hit) (h : findallL findFirst root sought = .ok (some hs)) :
+    ∀ p ∈ hs, getS root (join ['/'] p.1) = .ok (some p.2) := fun p hp =>
+  getS_of_getL root p.1 p.2 hg (findallL_resolves findFirst root (goodVS_goodV root hg) sought hs h p hp)
+
+/-- **C18 (`**`, string form).**  Every leaf `findall('**')` lists resolves through the string
+form of `get` to its text. -/
+theorem C18_deep_wildcard_resolves_str (root : XVal) (hg : goodVS root = true) :
+    ∀ p ∈ leavesV [] root, getS root (join ['/'] p.1) = .ok (some p.2) :=
+  C18_findallL_resolves_get_str false root hg [star2] _ (findallL_deep root)
+
+example : goodVS (parseNode exDoc) = true := by decide +kernel
+example : join ['/'] [s "b", s "a"] = s "b/a" := by decide +kernel
+example : getS (parseNode exDoc) (s "b/a") = .ok (some (.text (some (s "1")))) := by decide +kernel
+example : getS (parseNode exDoc) (s "a[1]") = .ok (some (.text (some (s "z")))) := by decide +kernel
+
+/-- **C18 (expressions as strings).**  For an expression of the property's grammar — tokens `..`
+or `tag[idx][text() op v]` with `tag` a name, `*` or `**`, `idx` absent, `[*]` or `[i]`, `op` `=` or
+`!=` (`WfTok`) — whose text contains no `**/**` (which `findall` collapses): what `findall` reads
+from the rendered string (`**/**` loop, `replace("/[","[").strip('/').split('/')`, the `'..'`
+test and the step parser standing for the regex) is exactly the expression. -/
+theorem C18_parse_render (e : List Tok) (hne : e ≠ []) (hwf : ∀ t ∈ e, WfTok t)
+    (hN : isInfix starsPat (renderExpr e) = false) :
+    parseExpr (renderExpr e) = some e ∧ xpSteps (renderExpr e) = e.map renderTok :=
+  ⟨parseExpr_renderExpr e hne hwf hN, xpSteps_render e hne hwf hN⟩
+
+/-- the hypothesis about the text, structurally: the rendering of a grammar expression contains no
+`**/**` when no plain `**` token is directly followed by a token whose tag is `**` (`NoDD`) -/
+theorem C18_parse_render_noDD (e : List Tok) (hne : e ≠ []) (hwf : ∀ t ∈ e, WfTok t) (hdd : NoDD e) :
+    parseExpr (renderExpr e) = some e ∧ xpSteps (renderExpr e) = e.map renderTok :=
+  C18_parse_render e hne hwf (renderExpr_noStars e hwf hdd)
+
+/-- so `findall` on the rendered string is `findall` on the list of rendered steps -/
+theorem C18_findall_rendered (findFirst : Bool) (root : XVal) (e : List Tok) (hne : e ≠ [])
+    (hwf : ∀ t ∈ e, WfTok t) (hN : isInfix starsPat (renderExpr e) = false) :
+    findall findFirst root (renderExpr e) = findallL findFirst root (e.map renderTok) := by
+  unfold findall
+  rw [xpSteps_render e hne hwf hN]
+
+/-- one step: the step parser returns the groups the step was rendered from -/
+theorem C18_parseStep_render (st : Step) (h : WfStep st) : parseStep (renderStepE st) = some st :=
+  parseStep_render st h
+
+/-- `**/a[1][text()!=z]/../*[*]` -/
+def exExpr : List Tok :=
+  [some ⟨star2, none, none⟩, some ⟨s "a", some (some 1), some (opNe, s "z")⟩, none,
+   some ⟨star, some none, none⟩, some ⟨s "b_2", none, some (opEq, s "none")⟩]
+
+example : renderExpr exExpr = s "**/a[1][text()!=z]/../*[*]/b_2[text()=none]" := by decide +kernel
+example : isInfix starsPat (renderExpr exExpr) = false := by decide +kernel
+example : ∀ t ∈ exExpr, WfTok t := by
+  intro t ht
+  simp only [exExpr, List.mem_cons, List.not_mem_nil, or_false] at ht
+  rcases ht with rfl | rfl | rfl | rfl | rfl
+  · exact ⟨Or.inr (Or.inl rfl), trivial⟩
+  · refine ⟨Or.inr (Or.inr ⟨by decide +kernel, by decide +kernel⟩), Or.inr rfl, by decide +kernel, by decide +kernel, ?_⟩
+    intro h; revert h; decide
+  · trivial
+  · exact ⟨Or.inl rfl, trivial⟩
+  · refine ⟨Or.inr (Or.inr ⟨by decide +kernel, by decide +kernel⟩), Or.inl rfl, by decide +kernel, by decide +kernel, ?_⟩
+    intro _; decide +kernel
+example : parseExpr (s "**/a[1][text()!=z]/../*[*]/b_2[text()=none]") = some exExpr := by decide +kernel
+example : NoDD exExpr := by
+  refine ⟨?_, ?_, ?_, ?_, trivial⟩
+  · rintro ⟨_, st, h, ht⟩
+    cases h
+    revert ht; decide +kernel
+  · rintro ⟨h, _⟩; revert h; decide +kernel
+  · rintro ⟨h, _⟩; cases h
+  · rintro ⟨h, _⟩; revert h; decide +kernel
+
+/-- **C18 (findfirst / in, string form).**  For every expression string. -/
+theorem C18_findfirst_str (root : XVal) (xp : Str) (r : Option (List Hit))
+    (h : findall false root xp = .ok r) :
+    findfirst root xp = .ok (firstOf r) ∧ contains root xp = .ok (nonEmpty r) :=
+  ⟨C18_findfirst root (xpSteps xp) r h, C18_in_iff root (xpSteps xp) r h⟩
+
+example : findall false (parseNode cexDoc) (s "**[1]/..") =
+      .ok (some [([s "a[0]"], .nodes [(s "b", [], .text none), (s "b", [], .text none)]), ([], parseNode cexDoc)]) ∧
+    findfirst (parseNode cexDoc) (s "**[1]/..") =
+      .ok (some ([s "a[0]"], .nodes [(s "b", [], .text none), (s "b", [], .text none)])) := by decide +kernel
+
+/-! ### attributes -/
+
+/-- `<r><p k="1"><q/></p><p n="2" k="3">t</p></r>`: attributes on an element with children and on a leaf -/
+def exDocA : Elem :=
+  .mk (s "r") none [(s "root", s "0")] [
+    .mk (s "p") none [(s "k", s "1")] [.mk (s "q") none [] []],
+    .mk (s "p") (some (s "t")) [(s "n", s "2"), (s "k", s "3")] []]
+
+/-- **C18 (attributes).**  `get_attrib` with explicit per-tag indexes (list form) returns exactly
+the attributes — names, values, order — ElementTree reports for the element at that position,
+whether or not it has children; the default (`none`) when there is no such element.
+(`C18_parse_preserves` already states that the parsed structure carries every element's
+attributes in document order; the root's own attributes are not kept by n0xml.) -/
+theorem C18_get_attrib_positional (e : Elem) (st : Str × Nat) (p : List (Str × Nat))
+    (hp : ∀ q ∈ st :: p, goodTag q.1 = true) :
+    getAttrL (parseNode e) ((st :: p).map renderStep) = .ok ((elemAt e (st :: p)).map attribOf) :=
+  getAttrL_parseNode e st p hp
+
+/-- the same for the string `t1[k1]/…/tn[kn]` -/
+theorem C18_get_attrib_positional_str (e : Elem) (st : Str × Nat) (p : List (Str × Nat))
+    (hp : ∀ q ∈ st :: p, goodTagS q.1 = true) :
+    getAttrS (parseNode e) (renderIdxPath (st :: p)) = .ok ((elemAt e (st :: p)).map attribOf) := by
+  rw [getAttrS_renderIdxPath _ _ (by simp) hp]
+  exact getAttrL_parseNode e st p (fun q hq => goodTagS_goodTag _ (hp q hq))
+
+example : getAttrS (parseNode exDocA) (s "p[0]") = .ok (some [(s "k", s "1")]) := by decide +kernel
+example : getAttrS (parseNode exDocA) (s "p[1]") = .ok (some [(s "n", s "2"), (s "k", s "3")]) := by decide +kernel
+example : getAttrS (parseNode exDocA) (s "p[0]/q[0]") = .ok (some []) := by decide +kernel
+example : getAttrS (parseNode exDocA) (s "p[2]") = .ok none := by decide +kernel
+example : flatVal 0 (parseNode exDocA) =
+    [⟨0, s "p", [(s "k", s "1")], none⟩, ⟨1, s "q", [], some none⟩,
+     ⟨0, s "p", [(s "n", s "2"), (s "k", s "3")], some (some (s "t"))⟩] := by decide +kernel
 
 end N0.C18
